@@ -163,7 +163,7 @@ def _share_coverage(ctx: Ctx, case: dict):
 
 def _oracle_kinds(c: dict) -> List[str]:
     impl, cap = rig.run_impl(c)
-    return [m.split(":")[0][:40] for m in rig.oracle_all(c, impl, cap)]
+    return [m.split(":")[0][:60] for m in rig.oracle_all(c, impl, cap)]
 
 
 def _shrink_oracle(case: dict, key: str) -> dict:
